@@ -937,8 +937,15 @@ func (e *containerExec) one(s *CStep) {
 	var rd container.Reader
 	var rerr error
 	a0 := allocNow()
+	keepWire := string(wire)
 	if guard(o, "container.From:"+s.Format, func() { rd, rerr = readContainerVariant(s.Format, s.RStream, s.Chunks, wire) }) {
 		return
+	}
+	if keepWire != string(wire) {
+		// the bytes handed to a reader are the caller's: the byte-slice variant is interchangeable with
+		// the stream variant only if the same bytes can be read again afterwards
+		o.Violate("C17", "input-bytes-changed", fmt.Sprintf("the %s reader (%s) changed the byte slice it was given", s.Format, variant), map[string]string{"format": s.Format})
+		wire = []byte(keepWire)
 	}
 	// cumulative allocation of one container read: a coarse bound that only a
 	// declared-length-driven allocation can exceed (kept out of the event log)
